@@ -425,14 +425,15 @@ def m_table_get(I, fr, a, ck):
     if not isinstance(key, Adt) or key.ty != 'BDD':
         raise EngineError('table key is %s' % type(key).__name__)
     # leaves are always present (part of the invariant established by new()); other keys may hit or miss
-    leaf = gor(*[g for idx, (g, fs) in key.alts.items() if idx in (0, 1)])
+    leaf = gor(*[gand(g, t.leaves[idx]) for idx, (g, fs) in key.alts.items() if idx in (0, 1)])
     mode = I.cfg.get('table_mode', 'free')
+    inner = gor(*[g for idx, (g, fs) in key.alts.items() if idx not in (0, 1)])
     if mode == 'free':
-        hit = gor(leaf, I.fresh_bool('hit'))
+        hit = gor(leaf, gand(inner, I.fresh_bool('hit')))
     elif mode == 'miss':
         hit = leaf
     else:
-        hit = True
+        hit = gor(leaf, inner)
     entry = mk_rc(key, True)       # invariant: the entry's content is structurally the key; it is table-owned
     return option(I, hit, mk_sref(entry))
 
@@ -445,6 +446,10 @@ def m_table_insert(I, fr, a, ck):
     if not isinstance(t, TableV):
         raise EngineError('HashMap::insert on %s' % type(t).__name__)
     key, val = a[1], a[2]
+    if t.swept is not None:
+        nt = TableV(t.tag, t.leaves)
+        if isinstance(r, MRef):
+            write_mref(I, fr, r, nt)
     # preservation of the invariant: key == *val (obligation collected by the harness)
     if isinstance(val, RcV):
         I.insert_obligations.append((key, val.inner))
@@ -464,7 +469,51 @@ def m_table_len(I, fr, a, ck):
     t = I.peel_all(a[0], fr)
     if isinstance(t, MapV):
         return len(t.items)
+    if isinstance(t, TableV):
+        if t.lenv is None:
+            t.lenv = I.fresh_bv('tablelen')       # one unknown size per table state
+        return t.lenv
     return I.fresh_bv('tablelen')
+
+
+def m_table_retain(I, fr, a, ck):
+    """HashMap::retain on the unique table: the unknown inner entries stay unknown (every lookup is free to miss
+    anyway); the two leaf entries are kept exactly when the predicate keeps them"""
+    r = a[0]
+    t = I.peel_all(r, fr)
+    if not isinstance(t, TableV):
+        raise Unsupported('HashMap::retain on %s' % type(t).__name__)
+    cid = a[1].cid if isinstance(a[1], Closure) else id(a[1])
+    if t.swept == cid:
+        # swept again with the same predicate and no insert in between: one modelled sweep already stands for any
+        # number of them (each leaf survives under an unconstrained condition), so this is a fixed point
+        return UNIT
+    keep = []
+    pans = []
+    for idx in (0, 1):
+        leaf = mk('BDD', idx, [])
+        cell = I.new_cell()
+        m = dict(fr.mem)
+        m[cell] = mk_rc(leaf, True)
+        fr.mem = m
+        val = None
+        for o in call_mut_closure(I, fr, a[1], [mk_sref(leaf), MRef(cell, ())]):
+            if o.kind == 'panic':
+                pans.append(o)
+            else:
+                val = o.value if val is None else merge(o.guard, o.value, val)
+        keep.append(gand(t.leaves[idx], val if val is not None else False))
+    nt = TableV(t.tag, (keep[0], keep[1]))
+    nt.swept = cid
+    write_mref(I, fr, r, nt)
+    if pans:
+        return Outs([ret(UNIT)] + pans)
+    return UNIT
+
+
+def m_rc_strong_count(I, fr, a, ck):
+    # reference counts do not exist in value semantics: any count >= 1 is possible
+    return I.fresh_bv('strong_count')
 
 
 def m_map_default(I, fr, a, ck):
@@ -1429,6 +1478,8 @@ def register_all(M):
     A('HashMap', None, 'get', m_table_get)
     A('HashMap', None, 'insert', m_table_insert)
     A('HashMap', None, 'len', m_table_len)
+    A('HashMap', None, 'retain', m_table_retain)
+    A('Rc', None, 'strong_count', m_rc_strong_count)
     A('HashMap', 'Default', 'default', m_map_default)
     A('Option', None, 'expect', m_option_expect)
     A('Option', None, 'unwrap', m_option_expect)
@@ -1825,7 +1876,9 @@ def m_rc_ptr_eq(I, fr, a, ck):
             return o.alts.get('T', False)
         return o is True
     # two table-owned nodes of equal structure are one allocation (the sharing invariant); otherwise unknown
-    both = gand(own(x), own(y)) if isinstance(x, RcV) and isinstance(y, RcV) else False
+    # (only where ownership is tracked at all: the provenance mode of the sharing units; elsewhere operands may be
+    # diagrams of another environment, whose equal nodes are different allocations)
+    both = gand(own(x), own(y)) if (I.prov is not None and isinstance(x, RcV) and isinstance(y, RcV)) else False
     return gand(e, gor(both, I.fresh_bool('ptr_eq')))
 
 
@@ -1918,6 +1971,10 @@ def m_map_contains_key(I, fr, a, ck):
         if isinstance(r, Outs):
             raise EngineError('panic in key comparison')
         return r.alts[1][0] if 1 in r.alts else False
+    if isinstance(t, TableV) and isinstance(key, Adt) and key.ty == 'BDD':
+        leaf = gor(*[gand(g, t.leaves[idx]) for idx, (g, fs) in key.alts.items() if idx in (0, 1)])
+        inner = gor(*[g for idx, (g, fs) in key.alts.items() if idx not in (0, 1)])
+        return gor(leaf, gand(inner, I.fresh_bool('hit')))
     raise EngineError('contains_key on %s' % type(t).__name__)
 
 
@@ -1926,7 +1983,10 @@ def m_map_clear(I, fr, a, ck):
     if isinstance(t, MapV):
         write_mref(I, fr, a[0], MapV(()))
         return UNIT
-    raise EngineError('clear on the unique table is not modelled')
+    if isinstance(t, TableV):
+        write_mref(I, fr, a[0], TableV(t.tag, (False, False)))
+        return UNIT
+    raise EngineError('clear on %s' % type(t).__name__)
 
 
 def m_map_remove(I, fr, a, ck):
@@ -2699,6 +2759,6 @@ def register_batch3(M):
     A('String', None, 'is_empty', m_str_is_empty)
     for m in ('starts_with', 'ends_with', 'contains'):
         A('str', None, m, m_str_pred)
-    A('Rc', None, 'strong_count', m_rc_count)
+    A('Rc', None, 'strong_count', m_rc_strong_count)
     A('Rc', None, 'weak_count', m_rc_count)
     A('HashMap', None, 'entry', m_entry_or_insert)
